@@ -1,5 +1,7 @@
 (* C15 -- Deferred work (spans, captures) is completed exactly once, in its own thread. *)
 From Deep Require Import Base Callbacks CallbacksProofs.
+From DeepGen Require Import PCallbacks.
+From Deep Require Import PureSupport TieCallbacks.
 
 (* for every well-formed event trace of a thread and every choice of the events at which contexts are
    opened: a context is completed at most once, and every opened context is pending or completed *)
@@ -57,3 +59,12 @@ Print Assumptions C15_threads_independent.
 Theorem C15_top_only_refuted : exists s, top_only_witness = Some s /\ stack s = [] /\ pending s <> [].
 Proof. exact top_only_refuted. Qed.
 Print Assumptions C15_top_only_refuted.
+
+(* ---- tie by translation: CallbackContext.at_location and the body of the loop of TriggerHandler.__process_call_backs as
+   they are in /repo/src NOW (gen/PCallbacks.v is regenerated on every run): the loop over the translated body completes
+   exactly the contexts Callbacks.complete completes, for line, return and exception events, on every pending stack *)
+Theorem C15_the_code_loop_is_the_model :
+  forall isline ret lab line p,
+  pop_loop (code_body isline ret lab line) p false = complete isline lab p.
+Proof. exact tie_process_call_backs. Qed.
+Print Assumptions C15_the_code_loop_is_the_model.
